@@ -45,6 +45,7 @@ FIXED = [
  (["C01", "C11"], "e65821c", "D59", "ShapelyPolygon.sample_random_uniform put all points left over by the integer allotment per triangle into the biggest inner triangle: for n=1 every point lay there and (polygon & domain).sample_random_uniform(n=1) (e.g. through LHSSampler top-up) never terminated when that triangle misses the other operand; found by the C01 monitor (progress budget)"),
  (["C10"], "6f0885a", "D60", "set_volume(number) stored a 0-dim tensor: every density sampling call afterwards raised 'len() of a 0-d tensor' in compute_n_from_density; noticed by a seeding sub-agent, confirmed with the C10 monitor's new density-after-set_volume step"),
  (["C02", "C11"], "d860d83", "D61", "ShapelyPolygon.sample_random_uniform(n) returned more than n rows for non-convex polygons whose triangulation has triangles partly outside the polygon (20035 rows for n=20000); found by the C11 monitor after notch polygons were added"),
+ (["C10"], "33c46ba", "D63", "Triangle.sample_grid(d=...) returned a few more than ceil(d*area) points for large counts (3008 for 3000: the diagonal of the barycentric grid); found by the thorough tier of the C10 monitor"),
 ]
 
 OPEN = [
